@@ -318,9 +318,15 @@ func (p *Parser) parseStatement() ast.Node {
 	case token.VAR:
 		stmt = p.parseVar()
 	case token.CONST:
-		stmt = p.parseConst()
+		// Assign only a non-nil result: a nil *ast.Const stored in the
+		// interface would no longer compare equal to nil.
+		if constStmt := p.parseConst(); constStmt != nil {
+			stmt = constStmt
+		}
 	case token.RETURN:
-		stmt = p.parseReturn()
+		if returnStmt := p.parseReturn(); returnStmt != nil {
+			stmt = returnStmt
+		}
 	case token.BREAK:
 		stmt = p.parseBreak()
 	case token.CONTINUE:
@@ -447,6 +453,7 @@ func (p *Parser) parseReturn() *ast.Return {
 	p.nextToken()
 	value := p.parseExpression(LOWEST)
 	if value == nil {
+		p.setTokenError(p.curToken, "invalid return statement")
 		return nil
 	}
 	return ast.NewReturn(returnToken, value)
